@@ -755,8 +755,7 @@ fn cp_base_names() -> Vec<String> {
 fn params_case<T: ParamType>(base_name: &str, j0: &Value, edits: &[Edit], full: bool, fp: Option<u64>, acc: &mut Acc) -> Option<T> {
     let case = || json!({"space": "params", "type": T::TYPE, "base": base_name, "edits": edits_json(edits), "full": full});
     let j = apply(j0, edits);
-    let jj = j.clone();
-    let x: T = match guard::catch_any(move || serde_json::from_value::<T>(jj)) {
+    let x: T = match guard::catch_any(|| <T as serde::Deserialize>::deserialize(&j)) {
         Ok(Ok(x)) => x,
         Ok(Err(e)) => {
             acc.evals += 1;
